@@ -43,7 +43,7 @@ FAMILIES = ('spikes.', 'clusters.', 'templates.', 'channels.')
 @st.composite
 def _case(draw):
     spec = draw(D.dataset_spec(dense=True, naming='ks', amplitudes=True, full_feature_rows=True,
-                               max_nc=10, clusters_file=True))
+                               max_nc=10, clusters_file=True, symlinks=True))
     if spec['raw'] is None and spec['time_dtype'] in ('uint64', 'int64') and draw(st.booleans()):
         # a long recording: sample indices beyond 2**32 (about 40 h at 30 kHz)
         spec['samples'] = [s_ + 2 ** 32 + 5 for s_ in spec['samples']]
